@@ -403,6 +403,13 @@ void gp_end(GPAllocator*_scope)
     GPArena* scope_factory = gp_thread_local_get(gp_scope_factory_key);
     gp_end_scopes(gp_last_scope_of(scope_factory), scope);
     gp_arena_rewind(scope_factory, scope);
+
+    // gp_last_scope_of() looks for the last scope in the head node. If the
+    // rewind emptied a node that was created when the factory grew, the last
+    // scope lives in the previous node.
+    if (scope_factory->head->position == (void*)(scope_factory->head + 1) &&
+        scope_factory->head->tail != NULL)
+        gp_arena_node_delete(scope_factory);
 }
 
 void gp_scope_defer(GPAllocator*_scope, void (*f)(void*), void* arg)
